@@ -41,7 +41,8 @@ GRAPHS = {
 
 def build_loaddrv():
     import shutil
-    d = os.path.join(VERIF, "drivers", "loaddrv")
+    import vcommon
+    d = vcommon.crate_src("drivers/loaddrv")
     lock = os.path.join(REPO, "Cargo.lock")
     if os.path.exists(lock):
         shutil.copyfile(lock, os.path.join(d, "Cargo.lock"))
